@@ -3,12 +3,11 @@
    lsp4spl/src/features/formatting.rs) in Model/Format.v.
 
    PROVED here, for all inputs:  null_iff, whole_edit, indentation (indent_lines, indent_unit, block_lines,
-   nested_lines, proc_stmt_lines, proc_var_lines), the printer reads token kinds only, canonical form for two
-   documents with the same kinds and the same tree.
-   STATED, NOT PROVED (they need the parser round trip of C04):  C11_idempotent_full_statement,
-   C11_canonical_full_statement (canonical form without the same-tree hypothesis). *)
+   nested_lines, proc_stmt_lines, proc_var_lines), canonical form (printer and parser read token kinds only, hence
+   two documents with the same token kinds format identically).
+   STATED, NOT PROVED (needs the parser round trip of C04):  C11_idempotent_full_statement. *)
 From Coq Require Import String.
-From Spl Require Import Model.Format Model.Lexer Proofs.FormatProofs.
+From Spl Require Import Model.Format Model.Lexer Proofs.FormatProofs Proofs.ParseKinds.
 From Spl Require Model.Doc.
 Import ListNotations.
 Local Open Scope N_scope.
@@ -167,31 +166,30 @@ Theorem C11_printer_reads_kinds_only : forall f p a b,
 Proof. exact fmt_program_kinds. Qed.
 Print Assumptions C11_printer_reads_kinds_only.
 
-(* two documents whose token streams have the same kinds and the same tree format identically *)
-Theorem C11_canonical_partial : forall d1 d2 t1 t2 ins ts,
-  lex d1 = Some t1 -> lex d2 = Some t2 -> same_kinds t1 t2 -> parse t1 = parse t2 ->
+(* ... and so does the parser: every access to a token in Model/Parser.v goes through its kind (a relational argument
+   over all combinators and non-terminals, Proofs/ParseKinds.v) *)
+Theorem C11_parser_reads_kinds_only : forall t1 t2, same_kinds t1 t2 -> parse t1 = parse t2.
+Proof. exact parse_kinds. Qed.
+Print Assumptions C11_parser_reads_kinds_only.
+
+(* two documents whose token streams have the same kinds (with their values) format identically - whatever the
+   whitespace between the tokens, whatever the positions.  (That two texts which differ only in whitespace lex to the
+   same kinds is the lexer's business, C06; the hypothesis is decidable for any two given documents.) *)
+Theorem C11_canonical : forall d1 d2 t1 t2 ins ts,
+  lex d1 = Some t1 -> lex d2 = Some t2 -> same_kinds t1 t2 ->
   formatted_text d1 ins ts = formatted_text d2 ins ts.
-Proof. exact canonical_given_tree. Qed.
-Print Assumptions C11_canonical_partial.
+Proof. exact canonical. Qed.
+Print Assumptions C11_canonical.
 
 Example C11_canonical_ex :
   let d1 := str "proc  main ( ) { if(a<1){x:=007;}else y:=0x0a; }" in
   let d2 := str "proc main(){if (a <1)" ++ [13; 10; 9] ++ str "{ x :=7; } else y:= 0xA;}" ++ [10; 10] in
   match lex d1, lex d2 with
-  | Some t1, Some t2 => same_kinds t1 t2 /\ parse t1 = parse t2 /\ d1 <> d2
+  | Some t1, Some t2 => same_kinds t1 t2 /\ d1 <> d2
   | _, _ => False
   end
   /\ formatted_text d1 true 2 = Done c11_tidy /\ formatted_text d2 true 2 = Done c11_tidy.
 Proof. vm_compute. repeat split; discriminate. Qed.
-
-(* full statement (not proved: that the parser reads kinds only is visible in Model/Parser.v - every access to a
-   token goes through [tk] - but a proof needs a relational argument over all its combinators) *)
-Definition C11_canonical_full_statement : Prop := C11_canonical_statement.
-Example C11_canonical_full_statement_unfold :
-  C11_canonical_full_statement =
-  (forall d1 d2 t1 t2 ins ts, lex d1 = Some t1 -> lex d2 = Some t2 -> same_kinds t1 t2 ->
-                              formatted_text d1 ins ts = formatted_text d2 ins ts).
-Proof. reflexivity. Qed.
 
 (* 5. Idempotence: full statement, not proved (needs: the formatted text re-parses to the same tree, C04 + C09) *)
 Definition C11_idempotent_full_statement : Prop := C11_idempotent_statement.
